@@ -387,6 +387,9 @@ def _resync(ctx):
     bs = ctx.repo.module(BS)
     fx = bs.func("BaseShell._fix_cwd")
     st = f"{BS}:BaseShell._fix_cwd"
+    if not any((call_name(c) or "").endswith("getcwd") for c in calls_in(fx)):
+        # the directory may be read through a helper (`_get_cwd()`: getcwd or None), the lost-directory report extracted
+        fx = flat(ctx, fx, 2, skip=("print_color", "fire"))
     ps = [p_ for p_ in dtable.paths(fx, stores=True, loops="skip") if dtable.feasible(p_)]
 
     def writes_pwd(p_):
@@ -421,6 +424,8 @@ def _resync(ctx):
         raise AnalysisError(f"{st}: no in-sync path enumerated")
     # ... and the resynchroniser runs after every command, whatever the command did
     dfn = bs.func("BaseShell.default")
+    if not any(call_name(c) == "self._fix_cwd" for c in calls_in(dfn)):
+        dfn = flat(ctx, dfn, 1, skip=("_append_history", "_fix_cwd", "run_compiled_code", "push", "precmd", "print_exception"))
     cfg = CFG(dfn, catchall=("BaseException",))
     run = [n for n in cfg.nodes if n.kind == "stmt" and any(call_name(c) == "run_compiled_code" for c in calls_in(n.ast))]
     fix = [n for n in cfg.nodes if n.kind == "stmt" and any(call_name(c) == "self._fix_cwd" for c in calls_in(n.ast))]
